@@ -1,86 +1,40 @@
 #!/usr/bin/env python3
-"""seed_detect.py [seed-name ...]  — re-runs the claimed static checks against every confirmed seed under
-/verif/seeded/<name>/ (patch applied in a scratch worktree of /repo), updates meta.json (caught_by, detected,
-detected_by_own_property) and prints a table. Only the seed's own property check plus the checks that caught it
-last time are run unless --all is given."""
-import json, os, shutil, subprocess, sys, tempfile
+"""seed_detect.py [seed-name ...]  — re-runs all claimed static checks (one process per tree) against every confirmed
+seed under /verif/seeded/<name>/ (patch applied in a scratch worktree of /repo's HEAD), updates meta.json (caught_by,
+detected, detected_by_own_property) and prints a table."""
+import json, os, sys
 from concurrent.futures import ThreadPoolExecutor
+sys.path.insert(0, os.path.dirname(os.path.abspath(__file__)))
+from vlib import VERIF, Worktree, baseline, new_failing
 
-ENV = dict(os.environ, VERIF_NO_CONTROLS="1", GOFLAGS="-mod=mod", GOPROXY="off", GOSUMDB="off", GOTOOLCHAIN="local")
-ENV.pop("GOWORK", None)
-VERIF = "/verif"
 
-def run(cmd, cwd, timeout=900):
-    p = subprocess.run(cmd, cwd=cwd, env=ENV, shell=True, capture_output=True, text=True, timeout=timeout)
-    return p.returncode, (p.stdout + p.stderr)
-
-def failing(repo, prop, sv):
-    run(f"{VERIF}/bin/pongocheck -repo {repo} -verif {sv} -property {prop}", VERIF)
-    try:
-        cov = json.load(open(os.path.join(sv, "evidence", prop + ".json")))["coverage"]
-        return {ob["rule"] + "|" + ob["construct"] for ob in cov.get("failing", [])}
-    except Exception as e:
-        return {"ERROR|" + str(e)}
-
-BASE = {}
-
-def base(prop):
-    if prop not in BASE:
-        sv = tempfile.mkdtemp(prefix="sdbase-", dir="/tmp")
-        shutil.copy(f"{VERIF}/known_findings.json", sv)
-        BASE[prop] = failing("/repo", prop, sv)
-        shutil.rmtree(sv, ignore_errors=True)
-    return BASE[prop]
-
-def one(name, props):
+def one(name):
     d = os.path.join(VERIF, "seeded", name)
     meta = json.load(open(os.path.join(d, "meta.json")))
-    wt = tempfile.mkdtemp(prefix="sdwt-", dir="/tmp"); os.rmdir(wt)
-    sv = tempfile.mkdtemp(prefix="sdverif-", dir="/tmp")
-    shutil.copy(f"{VERIF}/known_findings.json", sv)
-    caught = {}
-    try:
-        c, o = run(f"git -C /repo worktree add -q --detach {wt} HEAD", "/")
-        assert c == 0, o
-        c, o = run(f"git apply {d}/patch.diff", wt)
-        if c != 0:
-            return name, meta, {"ERROR": ["patch does not apply: " + o[:200]]}
-        for p in props:
-            new = failing(wt, p, sv) - base(p)
-            if new:
-                caught[p] = sorted(new)
-    finally:
-        run(f"git -C /repo worktree remove --force {wt}", "/")
-        shutil.rmtree(wt, ignore_errors=True); shutil.rmtree(sv, ignore_errors=True)
+    with Worktree(os.path.join(d, "patch.diff"), "sdwt-") as wt:
+        if wt.apply_error:
+            return name, meta, {"ERROR": ["patch does not apply: " + wt.apply_error[:200]]}
+        caught = {p: sorted(d) for p, d in new_failing(wt.dir).items()}
     meta["caught_by"] = caught
     meta["detected"] = bool(caught)
     meta["detected_by_own_property"] = meta["property"] in caught
     json.dump(meta, open(os.path.join(d, "meta.json"), "w"), indent=1)
     return name, meta, caught
 
+
 def main():
-    args = [a for a in sys.argv[1:] if not a.startswith("--")]
-    allp = "--all" in sys.argv
-    claimed = [c["property_id"] for c in json.load(open(f"{VERIF}/MANIFEST.json"))["checks"]]
-    names = args or sorted(os.listdir(os.path.join(VERIF, "seeded")))
-    for p in claimed:
-        base(p) if allp else None
-    jobs = []
-    for n in names:
-        meta = json.load(open(os.path.join(VERIF, "seeded", n, "meta.json")))
-        props = claimed if allp else sorted(set([meta["property"]] + list(meta.get("caught_by", {}).keys())) & set(claimed))
-        for p in props:
-            base(p)
-        jobs.append((n, props))
-    with ThreadPoolExecutor(max_workers=4) as ex:
-        results = list(ex.map(lambda j: one(*j), jobs))
-    subprocess.run("git -C /repo worktree prune", shell=True)
+    names = [a for a in sys.argv[1:] if not a.startswith("--")] or sorted(os.listdir(os.path.join(VERIF, "seeded")))
+    baseline()
+    with ThreadPoolExecutor(max_workers=8) as ex:
+        results = list(ex.map(one, names))
     det = own = 0
     for name, meta, caught in results:
         own_hit = meta["property"] in caught
-        det += bool(caught); own += own_hit
-        print(f"{name:8} {'OWN ' if own_hit else ('other' if caught else 'MISS ')} " + "; ".join(f"{p}: {', '.join(k.split('|')[0] for k in ks[:3])}" for p, ks in caught.items()))
+        det += bool(caught) and "ERROR" not in caught
+        own += own_hit
+        print(f"{name:8} {'OWN  ' if own_hit else ('other' if caught else 'MISS ')} " + "; ".join(f"{p}: {', '.join((k.replace('|', ':')[:60]) for k in ks[:3])}" for p, ks in caught.items()))
     print(f"{len(results)} seeds: detected {det}, by own property {own}")
+
 
 if __name__ == "__main__":
     main()
